@@ -103,9 +103,20 @@ def run(ctx):
     ctx.pyvc(ast_nodes.UNITS, dict((u.name, ("m_equiv", lambda v: None, lambda nm: {"must_contain": ["inline attributes"]}, 220))
                                    for u in ast_nodes.UNITS))
     ast_nodes.scope_wiring_items(ctx, REPO)
+    # a wrap option set on one declaration deep inside nested namespaces equals the option set on its containers: the
+    # promotion of wrap flags (units shared with C15) visits every child container
+    import copy as _copy
+    from contracts import ast_wrapflags as _W
+    pw = []
+    for u in _W.UNITS:
+        if u.name.startswith(("PromoteWrap", "WrapFlags.accumulate")):
+            u2 = _copy.copy(u)
+            u2.prop = "C14"
+            pw.append(u2)
+    ctx.pyvc(pw, dict((u.name, ("m_wrapsel", lambda v: None, lambda nm: None, 80)) for u in pw))
     # instantiating a class template keeps every enclosing scope (blocks) of its functions: ClassNode.clone, clone_scope_chain
     from contracts import ast_clone
-    eqv = ("m_equiv", lambda v: None, lambda nm: None, 220)
+    eqv = ("m_equiv", lambda v: None, lambda nm: None, 260)
     ctx.pyvc(ast_clone.UNITS, dict((u.name, eqv) for u in ast_clone.UNITS))
     try:
         from contracts import util_scope
@@ -148,7 +159,7 @@ def run(ctx):
                                     "command line (absolute and relative output directory)"})
         if r0["violation"]:
             ctx.violation("bounded/m_options", {"inputs": r0["inputs"], "observed": r0["violation"]}, True)
-        r = ctx.monitor("m_equiv", "search", 220, ctx.seed)
+        r = ctx.monitor("m_equiv", "search", 260, ctx.seed)
         ctx.bounded.append({"monitor": "m_equiv", "inputs_tried": r["tried"], "violation": r["violation"],
                             "kind": "two-run relations, deterministic core: empty blocks / container vs each function in every "
                                     "container kind, inline attributes vs attrs/fattrs"})
